@@ -308,6 +308,87 @@ func sizeVTSanity(c *an.Check, pkgs func(path string) bool) {
 			}
 		}
 	}
+	// length-delimited fields: in `n += tag + l + SizeOfVarint(uint64(X))` the length prefix that is sized is the length
+	// that is added (X == l); sizing another value under-/over-budgets the buffer for some field values
+	nLen := 0
+	for path, pk := range p.All {
+		if !strings.HasPrefix(path, an.Mod) || !pkgs(strings.TrimPrefix(path, an.Mod+"/")) || pk.TypesInfo == nil {
+			continue
+		}
+		for _, f := range pk.Syntax {
+			for _, d := range f.Decls {
+				fd, ok := d.(*ast.FuncDecl)
+				if !ok || fd.Name.Name != "SizeVT" || fd.Body == nil {
+					continue
+				}
+				ast.Inspect(fd.Body, func(nd ast.Node) bool {
+					as, ok := nd.(*ast.AssignStmt)
+					if !ok || as.Tok != token.ADD_ASSIGN || len(as.Rhs) != 1 {
+						return true
+					}
+					var addends []ast.Expr
+					var flat func(e ast.Expr)
+					flat = func(e ast.Expr) {
+						if be, ok := e.(*ast.BinaryExpr); ok && be.Op == token.ADD {
+							flat(be.X)
+							flat(be.Y)
+							return
+						}
+						if pe, ok := e.(*ast.ParenExpr); ok {
+							flat(pe.X)
+							return
+						}
+						addends = append(addends, e)
+					}
+					flat(as.Rhs[0])
+					var lens, sized []string
+					for _, a := range addends {
+						switch x := a.(type) {
+						case *ast.Ident:
+							if tv, ok := pk.TypesInfo.Types[x]; ok && tv.Value == nil {
+								lens = append(lens, x.Name)
+							}
+						case *ast.CallExpr:
+							name := ""
+							switch fn := x.Fun.(type) {
+							case *ast.SelectorExpr:
+								name = fn.Sel.Name
+							case *ast.Ident:
+								name = fn.Name
+							}
+							if name == "len" && len(x.Args) == 1 {
+								lens = append(lens, types.ExprString(x))
+							}
+							if (name == "SizeOfVarint" || name == "sov") && len(x.Args) == 1 {
+								inner := x.Args[0]
+								if conv, ok := inner.(*ast.CallExpr); ok && len(conv.Args) == 1 {
+									inner = conv.Args[0]
+								}
+								sized = append(sized, types.ExprString(inner))
+							}
+						}
+					}
+					if len(lens) == 0 || len(sized) == 0 {
+						return true
+					}
+					nLen++
+					for _, l := range lens {
+						found := false
+						for _, sz := range sized {
+							if sz == l {
+								found = true
+							}
+						}
+						if !found {
+							bad = fmt.Sprintf("%s: at %s the field adds %s bytes but sizes the length prefix of %s", path, p.Fset.Position(as.Pos()), l, strings.Join(sized, ", "))
+						}
+					}
+					return true
+				})
+			}
+		}
+	}
+	c.Sites(nLen)
 	c.Require(bad == "" && n >= 1, "SIBLING", "generated SizeVT methods size each field from its own value, never from the running total", nil, "", n, fmt.Sprintf("%d SizeVT methods", n), func() string {
 		if bad != "" {
 			return bad
